@@ -5,6 +5,9 @@ import (
 	"github.com/relab/hotstuff/internal/proto/hotstuffpb"
 	"github.com/relab/hotstuff/internal/proto/kauripb"
 	"crypto/sha256"
+	"fmt"
+
+	"google.golang.org/protobuf/proto"
 
 	"github.com/relab/hotstuff"
 	"github.com/relab/hotstuff/security/cert"
@@ -503,6 +506,23 @@ func monC09(w *World) {
 			}
 		})
 	}
+	sentUp := map[[2]uint64]map[hotstuff.ID]bool{}
+	dupIn := map[[2]uint64]bool{}
+	seenIn := map[string]bool{}
+	w.hooks.onHandle = append(w.hooks.onHandle, func(nd *Node, ev any) {
+		if c, ok := ev.(*kauripb.Contribution); ok && nd.honest {
+			var sb []byte
+			if c.Signature != nil {
+				sb, _ = proto.Marshal(c.Signature)
+			}
+			k := fmt.Sprintf("%d/%d/%d/%x", nd.slot, c.View, c.ID, sb)
+			if seenIn[k] {
+				dupIn[[2]uint64{uint64(nd.slot), c.View}] = true
+				w.probe("c09-tree-duplicate-contribution")
+			}
+			seenIn[k] = true
+		}
+	})
 	// every partial aggregate a tree node sends up verifies: all its participants really signed one block of that view
 	w.hooks.onContribution = append(w.hooks.onContribution, func(nd *Node, view hotstuff.View, sig hotstuff.QuorumSignature) {
 		if !nd.honest || w.viol != nil {
@@ -526,6 +546,27 @@ func monC09(w *World) {
 				ok = true
 				break
 			}
+		}
+		// what one tree node sends up for one view is pairwise disjoint: its parent refuses an aggregate that overlaps
+		// what it has merged already, so a second contribution that repeats a signer loses the votes it carries
+		// (claimed for honest trees, and as long as no contribution was delivered to this node twice in that view: the
+		// node merges a repeated contribution of a child like a new one)
+		if ok && len(w.plan.Byz) == 0 && !dupIn[[2]uint64{uint64(nd.slot), uint64(view)}] {
+			key := [2]uint64{uint64(nd.slot), uint64(view)}
+			if sentUp[key] == nil {
+				sentUp[key] = map[hotstuff.ID]bool{}
+			}
+			overlap := hotstuff.ID(0)
+			sig.Participants().ForEach(func(id hotstuff.ID) {
+				if sentUp[key][id] && overlap == 0 {
+					overlap = id
+				}
+			})
+			if overlap != 0 {
+				w.violate("C09", "C09/tree-overlap", nd, "%s sends a second partial aggregate for view %d up the tree that names replica %d again (now %v)", nd, view, overlap, participantsOf(sig))
+				return
+			}
+			sig.Participants().ForEach(func(id hotstuff.ID) { sentUp[key][id] = true })
 		}
 		if !ok {
 			w.violate("C09", "C09/tree-unsound", nd, "%s sends a partial aggregate for view %d naming %v up the tree, but those replicas did not all sign one block of that view (%d candidate blocks)",
